@@ -98,7 +98,10 @@ CHECKS = {
        "keeps its representation invariant (both maps consistent) for every table; fresh / closed objects and new tables satisfy the cover. "
        "OVER HISTORIES (C13_every_history_resolvable, by a walk through every function of the model): every call keeps the cover and the "
        "shape of the store (stored PUBLISH: full topic, no alias) and requests only PUBLISH packets the receiver can resolve when they arrive, "
-       "retransmissions included; the receiver's table is dropped with the sender's at notify_closed. The implementation is judged by the "
+       "retransmissions included; the receiver's table is dropped with the sender's at notify_closed. THE PAIR (Conn/AliasPair.v): the library's "
+       "receive-side table, fed the same packets in order, answers exactly like the ghost table (C13_receiver_implements_ghost, _stream), so "
+       "between two library endpoints every requested PUBLISH is delivered with the topic the sending application asked for "
+       "(C13_pair_alias_step; whole receive path for QoS 0: C13_deliver_qos0_with_alias). The implementation is judged by the "
        "monitor mon_c13 (independent receiver-side alias table replayed over the sent packets) and tied to the model by the correspondence.",
   ref="DESIGN.md §3 C13",
   note=CONN_NOTE,
